@@ -140,4 +140,85 @@ theorem stod_decimal_value (ip fp : Str) (hne : ip ≠ []) (hfne : fp ≠ []) (h
   have h4 : (-(0 - (fp.length : Int))).toNat = fp.length := by omega
   simp only [h0, Bool.false_eq_true, if_false, h1, h2, h3, h4]
 
+/-! ### the repair does not reject plain decimals: they are converted whole -/
+
+theorem stodPos_decimal (ip fp : Str) (hne : ip ≠ []) (hi : ∀ c ∈ ip, isDigit c = true) (hf : ∀ c ∈ fp, isDigit c = true) :
+    stodPos (ip ++ '.' :: fp) = (ip ++ '.' :: fp).length := by
+  obtain ⟨t1, d1⟩ := takeWhile_digits_append ip ('.' :: fp) hi (by intro c hc; simp at hc; subst hc; decide)
+  have hfp : fp.takeWhile isDigit = fp ∧ fp.dropWhile isDigit = [] := by
+    have := takeWhile_digits_append fp [] hf (by intro c hc; simp at hc)
+    simpa using this
+  have hbody : decBodyLen (ip ++ '.' :: fp) = (ip ++ '.' :: fp).length := by
+    unfold decBodyLen
+    simp only [t1, d1, hfp.1, hfp.2, expLen, List.length_append, List.length_cons]
+    omega
+  cases ip with
+  | nil => exact absurd rfl hne
+  | cons c r =>
+    have hc := hi c List.mem_cons_self
+    have hsp : isSpace c = false := by
+      have n1 : c ≠ ' ' := digit_ne hc _ (Or.inl (by decide))
+      have n2 : c ≠ '\t' := digit_ne hc _ (Or.inl (by decide))
+      have n3 : c ≠ '\n' := digit_ne hc _ (Or.inl (by decide))
+      have n4 : c ≠ '\x0b' := digit_ne hc _ (Or.inl (by decide))
+      have n5 : c ≠ '\x0c' := digit_ne hc _ (Or.inl (by decide))
+      have n6 : c ≠ '\r' := digit_ne hc _ (Or.inl (by decide))
+      simp [isSpace, n1, n2, n3, n4, n5, n6]
+    have hm : c ≠ '-' := digit_ne hc _ (Or.inl (by decide))
+    have hp : c ≠ '+' := digit_ne hc _ (Or.inl (by decide))
+    have hi' : c ≠ 'i' := digit_ne hc _ (Or.inr (by decide))
+    have hn' : c ≠ 'n' := digit_ne hc _ (Or.inr (by decide))
+    have htw : ((c :: r) ++ '.' :: fp).takeWhile isSpace = [] := by simp [List.takeWhile, hsp]
+    have hdw : ((c :: r) ++ '.' :: fp).dropWhile isSpace = (c :: r) ++ '.' :: fp := by simp [List.dropWhile, hsp]
+    have hsign : takeSign ((c :: r) ++ '.' :: fp) = (false, (c :: r) ++ '.' :: fp) := by
+      simp only [List.cons_append]
+      unfold takeSign
+      split
+      · rename_i heq; injection heq with h1 _; exact absurd h1 hm
+      · rename_i heq; injection heq with h1 _; exact absurd h1 hp
+      · rfl
+    have hsl : signLen ((c :: r) ++ '.' :: fp) = 0 := by
+      simp only [List.cons_append]
+      unfold signLen
+      split
+      · rename_i heq; injection heq with h1 _; exact absurd h1 hm
+      · rename_i heq; injection heq with h1 _; exact absurd h1 hp
+      · rfl
+    have hinf : startsWithCI ((c :: r) ++ '.' :: fp) ['i', 'n', 'f'] = false := by
+      have : (lower c == 'i') = false := by rw [lower_digit hc]; simpa using hi'
+      simp [startsWithCI, startsWith, this]
+    have hnan : startsWithCI ((c :: r) ++ '.' :: fp) ['n', 'a', 'n'] = false := by
+      have : (lower c == 'n') = false := by rw [lower_digit hc]; simpa using hn'
+      simp [startsWithCI, startsWith, this]
+    unfold stodPos
+    simp only [htw, hdw, hsign, hsl, hinf, hnan, Bool.false_eq_true, if_false, List.length_nil, Nat.zero_add]
+    rw [← hbody]
+    split
+    · rename_i x t heq
+      have hx : (x == 'x' || x == 'X') = false := by
+        cases r with
+        | nil =>
+          simp only [List.cons_append, List.nil_append] at heq
+          injection heq with _ h2; injection h2 with h3 _
+          subst h3; decide
+        | cons y ys =>
+          simp only [List.cons_append] at heq
+          injection heq with _ h2; injection h2 with h3 _
+          have hy := hi y (List.mem_cons_of_mem _ List.mem_cons_self)
+          subst h3
+          have n1 : y ≠ 'x' := digit_ne hy _ (Or.inr (by decide))
+          have n2 : y ≠ 'X' := digit_ne hy _ (Or.inr (by decide))
+          simp [n1, n2]
+      simp only [hx, Bool.false_eq_true, if_false]
+    · rfl
+
+/-- **the strict conversion accepts every plain decimal literal with the same value**: the repair (whole-token conversion)
+    cannot reject `<digits>.<digits>` — whatever the flags, `stodS` is `stod` on such a token -/
+theorem stodS_decimal (fl : Flags) (ip fp : Str) (hne : ip ≠ []) (hi : ∀ c ∈ ip, isDigit c = true) (hf : ∀ c ∈ fp, isDigit c = true) :
+    stodS fl (ip ++ '.' :: fp) = stod (ip ++ '.' :: fp) := by
+  unfold stodS
+  cases stod (ip ++ '.' :: fp) with
+  | error e => rfl
+  | ok v => simp [bind, Except.bind, stodPos_decimal ip fp hne hi hf, pure, Except.pure]
+
 end AITB.Cassandra
